@@ -180,6 +180,7 @@ func (c *pChunker) start(ctx context.Context) {
 	defer close(c.results)
 	defer c.stop()
 	for {
+		verifYield("make.worker.loop")
 		select {
 		case <-ctx.Done():
 			c.err = Interrupted{}
@@ -207,6 +208,7 @@ func (c *pChunker) start(ctx context.Context) {
 
 		// Store it in our bucket
 		chunk := IndexChunk{Start: start, Size: uint64(len(b)), ID: id}
+		verifYield("make.worker.beforeSend")
 		c.results <- chunk
 
 		// Check if the next worker already has this chunk, at which point we stop
@@ -233,6 +235,7 @@ func (c *pChunker) start(ctx context.Context) {
 
 		// If the next worker has stopped and has no more chunks in its bucket,
 		// we want to skip that and try to sync with the one after
+		verifYield("make.worker.beforeSkip")
 		if c.next != nil && !c.next.active() && len(c.next.results) == 0 {
 			c.next = c.next.next
 		}
@@ -261,6 +264,7 @@ func (c *pChunker) syncWith(chunk IndexChunk) (bool, uint64) {
 	// currently is
 	var prev IndexChunk
 	for chunk.Start > c.sync.Start {
+		verifYield("make.sync.recv")
 		prev = c.sync
 		var ok bool
 		select {
@@ -290,6 +294,7 @@ func (c *pChunker) syncWith(chunk IndexChunk) (bool, uint64) {
 		// skip ahead.
 		n = prev.Start + prev.Size - chunk.Start
 		for {
+			verifYield("make.sync.nullrecv")
 			var ok bool
 			select {
 			case c.sync, ok = <-c.results:
